@@ -162,6 +162,13 @@ fn cases() -> Vec<Case> {
         case("shared function value: type arm in two threads", CANY, "c = (x: int) -> int { return x + 1 }", &[one!("match *c { q: (int) -> int => 1, => 0, }"), one!("match *c { q: (int) -> int => 1, => 0, }")], None, false),
         case("shared function value: if-set and type filter", CANY, "c = (x: int, y: int, z: int) -> int { return x }", &[one!("if q: (int, int, int) -> int = *c { 1 } else { 0 }"), one!("std.len([*c]~ ? (int, int, int) -> int $])")], None, false),
         case("shared function value: mapped with and tested", CANY, "c = (x: int) -> int { return x + 1 }", &[("{ g := *c; if q: (int) -> int = g { [1]~ @ q $] } else { [] } }", &["g := *c", "if q: (int) -> int = g { [1]~ @ q $] } else { [] }"]), one!("match *c { q: (any) -> int => 2, q: (int) -> any => 1, => 0, }")], None, false),
+        // 13. a thread that waits in a loop for another thread's assignment ("every assignment takes
+        //     effect"): the loop yields to the scheduler on every pass (verif_loom::set_spin_yield),
+        //     the expected outcome is fixed (the sequential oracle cannot run a wait on its own); a
+        //     wait that never sees the write exhausts the branch budget and is reported
+        case("spin: wait for an int cell to change", C0, "", &[one!("{ while *c == 0 { }; *c }"), one!("c = 1")], Some(3), false),
+        case("spin: wait for a bool cell, then answer through another cell", &[("c", "bool", "false"), ("d", "int", "0")], "", &[one!("{ while !(*c) { }; d = 5; *d }"), one!("{ c = true; while *d == 0 { }; *d }")], Some(3), false),
+        case("spin: wait with a comparison of two cells", AB, "", &[one!("{ while *a < *b { }; (*a, *b) }"), one!("a += 5")], Some(3), false),
         // deeper thorough-only explorations
         case("three threads, two ops each (bound 2)", C0, "", &[("{ c += 1; c *= 2 }", &["c += 1", "c *= 2"]), ("{ c += 3; c -= 1 }", &["c += 3", "c -= 1"]), ("{ c *= 3; c += 5 }", &["c *= 3", "c += 5"])], Some(2), true),
         case("two threads, four ops each (bound 3)", C0, "", &[("{ c += 1; c *= 2; c -= 3; c += 7 }", &["c += 1", "c *= 2", "c -= 3", "c += 7"]), ("{ c *= 5; c += 2; c /= 2; c -= 1 }", &["c *= 5", "c += 2", "c /= 2", "c -= 1"])], Some(3), true),
@@ -255,8 +262,33 @@ fn thread_interp(case: &Case, env: &Env) -> Interpreter<'static> {
     interp
 }
 
+/// outcome of the harnesses whose threads wait for each other (the only one possible)
+fn spin_expected(name: &str) -> Option<&'static str> {
+    match name {
+        "spin: wait for an int cell to change" => Some("results=[1 | 1] cells=[1]"),
+        "spin: wait for a bool cell, then answer through another cell" => Some("results=[5 | 5] cells=[true,5]"),
+        "spin: wait with a comparison of two cells" => Some("results=[(6, 2) | 6] cells=[6,2]"),
+        _ => None,
+    }
+}
+
 /// the body of one loom execution
 fn execution(case: &Case) {
+    if let Some(want) = spin_expected(case.name) {
+        simplesl::verif_loom::set_spin_yield(true);
+        let env = fresh_env(case);
+        let codes: Vec<Code> = case.threads.iter().map(|(t, _)| Code::parse(&env.interp, t).expect("thread program parses")).collect();
+        simplesl::verif_loom::begin_lock_book();
+        let handles: Vec<_> = codes.into_iter().map(|code| big(move || run_one(&code))).collect();
+        let results: Vec<String> = handles.into_iter().map(|h| h.join().expect("worker panicked")).collect();
+        let recursive = simplesl::verif_loom::end_lock_book();
+        assert!(recursive == 0, "RECURSIVE LOCK: {recursive} (thread, cell) pair(s)");
+        let outcome = format!("results=[{}] cells=[{}]", results.join(" | "), finals(&env));
+        EXECUTIONS.fetch_add(1, Ordering::Relaxed);
+        OUTCOMES.lock().unwrap().insert(outcome.clone());
+        assert!(outcome == want, "NOT LINEARIZABLE: observed {outcome}; the only outcome of threads that wait for each other's assignments is {want}");
+        return;
+    }
     let n = case.threads.len();
     // sequential oracle: the real interpreter executing, one operation at a time, every merge of
     // the threads' operation sequences on fresh state
@@ -353,6 +385,9 @@ fn run_case_child(index: usize) -> i32 {
             let cw = cw.clone();
             big(move || {
                 let env = fresh_env(&cw);
+                if spin_expected(cw.name).is_some() {
+                    return; // a wait cannot run on its own
+                }
                 for (t, _) in cw.threads {
                     if let Ok(code) = Code::parse(&env.interp, t) {
                         let _ = run_one(&code);
@@ -425,7 +460,8 @@ fn main() {
                 let r = if out.status.success() {
                     stdout.lines().last().and_then(|l| serde_json::from_str::<Value>(l).ok()).ok_or_else(|| format!("no result line: {stdout}"))
                 } else {
-                    let verdict = ["NOT LINEARIZABLE", "NOT ISOLATED", "RECURSIVE LOCK", "invalid internal loom state", "deadlock", "Deadlock", "Poison", "worker panicked", "/repo/src"].iter().any(|k| stderr.contains(k));
+                    let never_ends = spin_expected(all[idx].name).is_some() && (stderr.contains("exceeded maximum number of branches") || stderr.contains("max_branches") || stderr.contains("maximum number of branches"));
+                    let verdict = never_ends || ["NOT LINEARIZABLE", "NOT ISOLATED", "RECURSIVE LOCK", "invalid internal loom state", "deadlock", "Deadlock", "Poison", "worker panicked", "/repo/src"].iter().any(|k| stderr.contains(k));
                     let lines = stderr.lines().filter(|l| l.contains("NOT LINEARIZABLE") || l.contains("NOT ISOLATED") || l.contains("RECURSIVE LOCK") || l.contains("eadlock") || l.contains("panicked") || l.contains("Poison")).take(4).collect::<Vec<_>>().join(" / ");
                     if !verdict {
                         eprintln!("MACHINERY ERROR: loom harness {} failed without a verdict: exit {:?}: {lines}", idx, out.status.code());
@@ -434,6 +470,7 @@ fn main() {
                     // loom's RwLock keeps its readers as a set of threads: it reaches this state exactly
                     // when one thread holds two guards of one lock at once (a recursive acquisition,
                     // which deadlocks under std's writer-preferring lock when a writer queues in between)
+                    let lines = if never_ends { format!("THE WAIT NEVER ENDS: a thread waiting in a loop for another thread's assignment keeps running after that thread has finished (loom: branch budget exhausted) / {lines}") } else { lines };
                     let lines = if stderr.contains("invalid internal loom state") { format!("RECURSIVE LOCK: a thread took a cell lock it was already holding (loom: invalid internal loom state) / {lines}") } else { lines };
                     Err(format!("exit {:?}: {lines}", out.status.code()))
                 };
